@@ -42,11 +42,13 @@ def expected_reward(I, rate, fstart, fend, user_snaps, total_snaps, first, until
 class Scn:
     """two users (alice, bob) on LP1, one or two farms paying uusd; concrete epochs"""
 
-    def __init__(self, I, alice_second=None, bob_from=6, last_a=None, last_b=None, farms=((4, 12),), alice_from=3):
+    def __init__(self, I, alice_second=None, bob_from=6, last_a=None, last_b=None, farms=((4, 12),), alice_from=3, cursor_gap=False):
         self.I = I
         # representation invariant of the weight history: a claim up to epoch L leaves the claimant's earliest
-        # snapshot exactly at L (sync_address_lp_weight_history), so no snapshot older than the cursor exists
-        if last_a is not None:
+        # snapshot exactly at L (sync_address_lp_weight_history), so no snapshot older than the cursor exists.
+        # cursor_gap: the cursor L comes from a claim made while alice only held a position on ANOTHER LP token; her
+        # first snapshot on this LP token is at alice_from > L + 1 (position opened later): nothing is due for the gap
+        if last_a is not None and not cursor_gap:
             alice_from = last_a
         if last_b is not None:
             bob_from = last_b
@@ -79,6 +81,11 @@ class Scn:
         pb = I.sym('pos_b', lo=1, hi=U128 // 64)
         put_position(I, position('u-a', LP1, pa, DAY, 'alice', None))
         put_position(I, position('u-b', LP1, pb, DAY, 'bob', None))
+        if cursor_gap:
+            put_position(I, position('u-a2', LP2, 1000, DAY, 'alice', None))
+            put_weight(I, 'alice', LP2, last_a, 1000)
+            put_weight(I, FM, LP2, last_a, 1000)
+            b.set(FM, LP2, 1000)
         if last_a is not None:
             put_last_claimed(I, 'alice', last_a)
         if last_b is not None:
@@ -123,12 +130,12 @@ class Scn:
         return 'ok', r.f[0].data
 
 
-def replay_scn(alice_second, last_a, farms=((4, 12),), bob_from=6, alice_from=3, last_b=None, actions=None):
+def replay_scn(alice_second, last_a, farms=((4, 12),), bob_from=6, alice_from=3, last_b=None, actions=None, cursor_gap=False):
     """native scenario reproducing Scn from a model; actions: list of (user, until|None)"""
     from .pm import generic_replay
 
     def build(m):
-        af = last_a if last_a is not None else alice_from
+        af = last_a if (last_a is not None and not cursor_gap) else alice_from
         bf = last_b if last_b is not None else bob_from
         a_snaps = [(af, m['wa'])] + ([(alice_second, m['wa2'])] if alice_second is not None else [])
         b_snaps = [(bf, m['wb'])]
@@ -141,9 +148,15 @@ def replay_scn(alice_second, last_a, farms=((4, 12),), bob_from=6, alice_from=3,
             c0 = m['claimed0' if k == 0 else 'claimed0_%d' % (k + 1)]
             fl.append(('f-%d' % (k + 1), 'fowner', LP1, 'uusd', rate * (fe - fs), c0, rate, fs, fe))
         lc = ([('alice', last_a)] if last_a is not None else []) + ([('bob', last_b)] if last_b is not None else [])
-        steps = fm_state_steps(None, positions=[('u-a', LP1, m['pos_a'], DAY, 'alice', None), ('u-b', LP1, m['pos_b'], DAY, 'bob', None)],
+        positions = [('u-a', LP1, m['pos_a'], DAY, 'alice', None), ('u-b', LP1, m['pos_b'], DAY, 'bob', None)]
+        mints = [('uusd', m['fm_reward_balance']), (LP1, m['pos_a'] + m['pos_b'])]
+        if cursor_gap:
+            positions.append(('u-a2', LP2, 1000, DAY, 'alice', None))
+            weights += [('alice', LP2, last_a, 1000), ('farm_manager', LP2, last_a, 1000)]
+            mints.append((LP2, 1000))
+        steps = fm_state_steps(None, positions=positions,
                                farms=fl, weights=weights, last_claimed=lc, now_s=E * DAY + 5,
-                               mints=[('farm_manager', [('uusd', m['fm_reward_balance']), (LP1, m['pos_a'] + m['pos_b'])])])
+                               mints=[('farm_manager', mints)])
         for (user, until) in (actions or [('alice', None)]):
             steps.append({'op': 'execute', 'contract': 'farm_manager', 'sender': user, 'funds': [], 'msg': {'claim': {'until_epoch': until}}})
         sc = {'setup': {'time_nanos': '0', 'epoch': {'genesis': '0', 'duration': str(DAY)}, 'farm': {'max_concurrent_farms': 2}}, 'steps': steps}
@@ -278,6 +291,50 @@ for _sec, _last, _k in ((8, None, 7), (8, None, 8), (8, 5, 6), (None, None, 5), 
                statement='claim(until_epoch = k) followed by claim() pays the same total as a single claim(), for the same state',
                bounds='as L3; split epoch %s' % _k, covers=['ok'],
                replay=replay_scn(_sec, _last, actions=[('alice', _k), ('alice', None)]))(_ob_schedule(_sec, _last, _k))
+
+
+def _ob_farm_order(farms, until):
+    def s(I):
+        # farms are visited in identifier order, which need not be their start order: f-1 starts after `until`, f-2 is active throughout
+        sc = Scn(I, alice_second=8, farms=farms)
+        b = sc.b
+        for fx in sc.farms:
+            I.assume(smt.Eq(fx['claimed0'], 0))
+        pre = b.snapshot()
+        qs, resp = sc.query_rewards('alice', until)
+        exp_u, per_farm_u = sc.expected('alice', until)
+        st1, _ = sc.claim('alice', until)
+        paid_u = simp(b.get('alice', 'uusd') - pre.get('alice', 'uusd'))
+        booked_u = [get_farm(I, fx['id']).get('claimed_amount') for fx in sc.farms]
+        st2, _ = sc.claim('alice', None)
+        I.cover('ok', HINT)
+        I.observe('status', 'ok' if st2 == 'ok' else 'err')
+        observe_claim_state(I, sc, users=('alice',))
+        for fx in sc.farms:
+            observe_farm(I, fx['id'])
+        I.check('claims_succeed', st1 == 'ok' and st2 == 'ok')
+        if st1 != 'ok' or st2 != 'ok':
+            return
+        I.check('bounded_claim_pays_epoch_shares_of_every_active_farm', smt.Eq(paid_u, exp_u))
+        for k, fx in enumerate(sc.farms):
+            I.check('each_farm_books_its_own_shares', smt.Eq(booked_u[k], per_farm_u[k]))
+        I.check('query_succeeds_when_claim_does', qs == 'ok')
+        if qs == 'ok':
+            I.check('query_total_equals_claim_payment', smt.Eq(coins_total(resp.get('total_rewards'), 'uusd'), paid_u))
+        exp_all, _ = sc.expected('alice', E)
+        total = simp(b.get('alice', 'uusd') - pre.get('alice', 'uusd'))
+        I.check('split_claims_pay_the_full_total', smt.Eq(total, exp_all))
+    return s
+
+
+for _farms, _until in ((((9, 14), (4, 12)), 7), (((6, 9), (2, 12)), 5)):
+    obligation('C07', 'L6.farm_listed_first_starts_after_until_%d_%d_until%d' % (_farms[0][0], _farms[0][1], _until),
+               entries=['execute', 'claim', 'calculate_rewards', 'get_farms_by_lp_denom', 'query', 'query_rewards'], kind='S',
+               statement='two farms on the LP token, the one listed first (by identifier) starting only after until_epoch: the bounded claim and the Rewards query pay the epoch '
+                         'shares of the active farm, each farm books exactly its own shares, and a following unbounded claim completes the same total as a single claim',
+               bounds='current epoch 10; farms f-1 [%d,%d) and f-2 [%d,%d); user snapshots at 3 and 8, another user from 6; until_epoch %d; weights / rates symbolic'
+                      % (_farms[0] + _farms[1] + (_until,)), covers=['ok'],
+               replay=replay_scn(8, None, farms=_farms, actions=[('alice', _until), ('alice', None)]))(_ob_farm_order(_farms, _until))
 
 
 # ---------------------------------------------------------------- thorough tier: every shape of the epoch window
